@@ -18,8 +18,8 @@ RULE = ('part T: all trees of the grammar Expr ::= Unary | Expr op Unary, Unary 
         'rotate deterministically over the menus; part A: every atom of the atom space alone and under \\not; part P: every '
         'tree of depth <= 2 x every upper/lower-case assignment x 3 blank styles; part N: nested conditionals in both '
         'branches; part W: \\whiledo over all trees with loop-variant leaves x bound N = 0..6 (tests needing > 6 '
-        'iterations are outside the bound). Blocks = index ranges (disjoint). A case is non-trivial when its test has at '
-        'least one operator, group or macro atom; distinct = distinct (part, tree, atoms, spelling); outcomes = distinct '
+        'iterations are outside the bound). Blocks = index ranges (disjoint). A case is non-trivial unless its test is a '
+        'single bare atom in parts T/P; distinct = distinct (part, tree, atoms, spelling); outcomes = distinct '
         '(operator skeleton, leaf truth values, observed text)')
 ASSUMPTIONS = [
     'oracle = fold over the generated syntax tree with tightest \\not and equal-precedence left-to-right \\and/\\or; '
@@ -521,7 +521,7 @@ def _run_block(block, rep):
             for upper in range(1 << nops):
                 for style in (0, 1, 2):
                     case = {'part': 'P', 'tree': tree, 'atoms': atoms, 'upper': upper, 'style': style}
-                    run_case(rep, case, nontrivial=nops > 0)
+                    run_case(rep, case, nontrivial=tree[0] != 'a')
                     rep.count('spelling_cases')
     elif tag == 'N':
         _, lo, hi, seed = block
@@ -545,7 +545,7 @@ def _run_block(block, rep):
             nops = M.n_operators(M.tokens(tree))
             upper = (core.h64((idx, seed)) >> 8) & ((1 << nops) - 1) if (idx + seed) % 3 else 0
             case = {'part': 'T', 'tree': tree, 'atoms': atoms, 'upper': upper, 'style': (idx + seed) % 3}
-            obs, v = run_case(rep, case, session=session, nontrivial=t[0] != 'a' or atoms[0][0] != 'int')
+            obs, v = run_case(rep, case, session=session, nontrivial=t[0] != 'a')
             if rep.nviolations >= CUT:
                 rep.count('block_cut_short_after_violations')
                 break
